@@ -10,3 +10,4 @@ pub mod generate;
 pub mod linalg;
 pub mod openqasm;
 pub mod phase;
+pub mod rankwidth;
